@@ -265,6 +265,21 @@ PROPS = {
         real_vs_stub="real: sema.connectionLimitedBackend, semaphore; simulated: wrapped object store, goroutine choice",
         assumptions=SIM_ASSUME + ["an operation 'starts' when it arrives at the wrapped backend; operations that passed the freeze gate before Freeze returned count as in flight"],
     ),
+    "C42": dict(
+        pkg="internal/data", test="TestVerifC42", level="exploration", quick_s=30, thorough_s=600,
+        text="generated DAGs of 1-25 tree blobs with heavy sharing of subtrees (also between several roots), files referencing data blobs from a small "
+             "pool, optionally one tree reported as larger than 50 MiB (dedicated worker) and one missing or truncated tree; FindUsedBlobs and "
+             "StreamTrees run on a simulated loader with 1-6 connections and 1-8 virtual cores, every tree load being a scheduling point so that "
+             "the completion order of the loader workers is decided by the seeded scheduler; on an intact DAG the reported trees and data blobs "
+             "equal the model's reachable sets, every tree is loaded and processed exactly once, nothing unreachable is loaded; with a damaged "
+             "reachable tree an error is returned",
+        note="filterTrees contains a select with two ready cases that the Go runtime resolves randomly; the oracles do not depend on that choice "
+             "(replay exactness of this harness is therefore measured, not guaranteed)",
+        design_ref="3 / C42",
+        rule="one run = generated DAG x roots x damage x connections/cores x seeded schedule; distinct = distinct event-log hash among runs with a real scheduling choice",
+        real_vs_stub="real: data.StreamTrees, filterTrees, loadTreeWorker, FindUsedBlobs, tree decoder; stub: blob loader",
+        assumptions=SIM_ASSUME,
+    ),
     "C43": dict(
         pkg="internal/repository", test="TestVerifC43", level="exploration", quick_s=45, thorough_s=600,
         text="packs written by the real packer from 1-14 generated blobs (1 byte to 1.2 MiB, so that unrequested gaps exceed the 1 MiB skip limit; in some "
